@@ -728,36 +728,47 @@ def check_hashseeds(ctx, workdir, specs, seeds):
     area = tempfile.mkdtemp(prefix='seeds', dir=workdir)
     jobs = {'workdir': None, 'jobs': [{'spec': spec, 'scenarios': fam.scenarios(spec)} for spec in specs]}
     procs = []
+
+    def launch(seed, attempt):
+        home = os.path.join(area, f'seed{seed}try{attempt}')
+        os.makedirs(home)
+        jobfile = os.path.join(home, 'jobs.json')
+        with open(jobfile, 'w', encoding='utf-8') as fd:
+            json.dump(dict(jobs, workdir=home), fd)
+        env = dict(os.environ, PYTHONHASHSEED=str(seed), PYTHONPATH=os.pathsep.join([core.REPO, core.VERIF]),
+                   PYTHONDONTWRITEBYTECODE='1', PYTHONWARNINGS='ignore')
+        proc = subprocess.Popen([core.PYTHON, '-m', 'vlib.c20_fam', jobfile, os.path.join(home, 'out.json')], env=env,
+                                cwd=core.VERIF, stdout=subprocess.DEVNULL, stderr=subprocess.PIPE, text=True)
+        procs.append(proc)
+        return home, proc
+
+    def collect(seed, home, proc):
+        """-> results of the child or a reason (str) why there are none."""
+        try:
+            _, err = proc.communicate(timeout=ctx.pick(240, 900))
+        except subprocess.TimeoutExpired:
+            proc.kill()
+            proc.communicate()
+            return f'hash-seed child (seed {seed}) exceeded its watchdog'
+        out = os.path.join(home, 'out.json')
+        if proc.returncode != 0 or not os.path.exists(out):
+            return f'hash-seed child (seed {seed}) failed rc={proc.returncode}: {err[-800:]}'
+        with open(out, encoding='utf-8') as fd:
+            return json.load(fd)['results']
+
+    results = {}
     try:
-        for seed in seeds:
-            home = os.path.join(area, f'seed{seed}')
-            os.makedirs(home)
-            jobfile = os.path.join(home, 'jobs.json')
-            with open(jobfile, 'w', encoding='utf-8') as fd:
-                json.dump(dict(jobs, workdir=home), fd)
-            env = dict(os.environ, PYTHONHASHSEED=str(seed), PYTHONPATH=os.pathsep.join([core.REPO, core.VERIF]),
-                       PYTHONDONTWRITEBYTECODE='1', PYTHONWARNINGS='ignore')
-            procs.append((seed, home, subprocess.Popen(
-                [core.PYTHON, '-m', 'vlib.c20_fam', jobfile, os.path.join(home, 'out.json')], env=env, cwd=core.VERIF,
-                stdout=subprocess.DEVNULL, stderr=subprocess.PIPE, text=True)))
-        results = {}
-        for seed, home, proc in procs:
-            try:
-                _, err = proc.communicate(timeout=ctx.pick(240, 900))
-            except subprocess.TimeoutExpired:
-                proc.kill()
-                proc.communicate()
-                ctx.inconclusive(f'hash-seed child (seed {seed}) exceeded its watchdog')
+        for seed, (home, proc) in [(seed, launch(seed, 0)) for seed in seeds]:
+            got = collect(seed, home, proc)
+            if isinstance(got, str):  # e.g. the tree under test was being rewritten while the child imported it: once more
+                got = collect(seed, *launch(seed, 1))
+            if isinstance(got, str):
+                ctx.inconclusive(got)
                 continue
-            out = os.path.join(home, 'out.json')
-            if proc.returncode != 0 or not os.path.exists(out):
-                ctx.inconclusive(f'hash-seed child (seed {seed}) failed rc={proc.returncode}: {err[-800:]}')
-                continue
-            with open(out, encoding='utf-8') as fd:
-                results[seed] = json.load(fd)['results']
+            results[seed] = got
             ctx.count('hashseed_runs')
     finally:
-        for _, _, proc in procs:
+        for proc in procs:
             if proc.poll() is None:
                 proc.kill()
         shutil.rmtree(area, ignore_errors=True)
